@@ -1,5 +1,6 @@
 // e_mapped: dispatch; C11, C12.
 #include "../common/engine.hpp"
+#include <algorithm>
 #include "../common/tape.hpp"
 
 extern "C" int omp_get_num_procs(void) { return 64; }
@@ -16,6 +17,7 @@ static CaseResult run(const RunCtx &ctx, const Tape &tape, Tape &canon) {
     static const unsigned tw[] = {3, 3, 2, 2, 1, 1};
     size_t kt = t.weighted(tw);
     size_t cfg = t.below(6);
+    if (ctx.mode == "mem" && t.chance(1, 2)) size_hint = std::min(size_hint, 12u); // C17: boundary sizes (n = 1, 2, 3) every other case
     CaseResult r = T[kt][cfg](ctx, t, size_hint);
     canon = t.canon();
     return r;
